@@ -4,6 +4,10 @@ import ProductMD.Proofs.C05Images
 import ProductMD.Proofs.C05Rpms
 import ProductMD.Proofs.C05CI
 import ProductMD.Proofs.C05TreeInfo
+import ProductMD.Proofs.C05TreeInfoIdem
+import ProductMD.Proofs.C05WitnessTI
+import ProductMD.Proofs.C05WitnessTI03
+import ProductMD.Proofs.C05WitnessTI00
 import ProductMD.Properties.C03
 import ProductMD.Properties.C02
 import ProductMD.Properties.C09
@@ -391,73 +395,59 @@ theorem C05_ti_loaded_is_normal_partial (fo : FloatOracle) (d : Ini) (t : TreeIn
     ∧ validateClass "treeinfo.Media" (mediaObj t.discnum t.totaldiscs) = .ok () :=
   TI.Legacy.deserialize_sections_valid fo d t h
 
-/-- float oracle that is exact on integer texts (the witnesses below use integer timestamps) -/
-def intOracle : FloatOracle := ⟨Str.pyInt, fun s => .ok s⟩
-def iniSec (n : String) (kv : List (String × String)) : Str × IniSec := (n.toList, kv.map fun p => (p.1.toList, p.2.toList))
+/--
+**idempotent, treeinfo (every header version, 0.0 included).**  A tree loaded from a file of ANY version by the legacy-aware
+reader, once the current writer has written it as `text`: the *current* reader (`TI.loads`, i.e. `IniParse.parse` and
+`TI.deserialize` — no legacy branch: conversion happens exactly once) reads `text` back as the normal form of the loaded
+tree (dictionaries in `SortedDict` order, the tree arch among the platforms; nothing else changes: `TI.norm`), and writing
+that again gives the same bytes.  Corollary of `C04_tree_bytes`; from the load itself follow: the timestamp is an integer,
+top-level variants are filed under their UID (no F8 through a load: the readers call `add(v, variant_id=v.uid)`), the
+checksum table satisfies `ChecksumsOK` (both value syntaxes of the reader give a type and a value free of `:`), image names
+are dictionary keys, no main variant is requested.  Carried, each decidable and each with a real failing region behind it:
+* `hfl`   — the integer timestamp survives `int(float(str n))` (F17: beyond 2^53);
+* `hplat`, `huok`, `hnd` — platform names / UIDs non-empty and comma-free, UIDs distinct (file syntax; a pre-productmd section
+  may carry anything);
+* `htop`  — no top-level variant of type `addon` (F24, `C04_F24_witness`; met by pre-productmd files: known finding);
+* `hF25`  — no platform with images called `<x>-<tree arch>` (F25);
+* `hv`    — the normal form passes the validators the reader runs (`ReadValid`; automatic when the loaded tree is normal);
+* `htext`, `hck`, `himn` — what is written can travel as text (`TextOK`: `C04_textOK_criterion`), names not comment-like.
+-/
+theorem C05_ti_idempotent (sp : Char → Bool) (hsp : IniParse.SpOK sp) (hh : sp '#' = false) (hs : sp ';' = false)
+    (fo : FloatOracle) (d0 : Ini) (t : TreeInfo) (text : Str)
+    (hload : TI.Legacy.deserialize fo d0 = .ok t)
+    (h : dumps t none = .ok text)
+    (htext : ∀ d, serialize t none = .ok d → TextOK sp d)
+    (hck : ∀ c ∈ t.checksums, nc c.1 = true) (himn : ∀ p ∈ t.images, ∀ kv ∈ p.2, nc kv.1 = true)
+    (hfl : ∀ n, t.tree.ts = .int n → fo.intOfFloatStr (Str.intStr n) = .ok n)
+    (hplat : PlatformsOK t.tree) (huok : UidsOK t.variants) (hnd : UidsNodup t.variants)
+    (htop : TopNotAddon t.variants) (hF25 : ∀ p ∈ t.images, platformOf t.tree.arch (pImages ++ p.1) = p.1)
+    (hv : ReadValid (norm t)) :
+    loads sp fo text = .ok (norm t) ∧ (loads sp fo text).bind (dumps · none) = .ok text := by
+  obtain ⟨⟨n, hts⟩, hkeys⟩ := TI.Legacy.deserialize_tree_tops fo d0 t hload
+  obtain ⟨hcs, hin⟩ := TI.Legacy.deserialize_cs_images fo d0 t hload
+  have hk : TopKeyedByUid t.variants := by
+    intro v hv'
+    have hne : v.uid ≠ [] := (huok (none, v) (self_mem_subVs none t.variants v hv')).1
+    have := hkeys v hv'
+    cases hu : v.uid with
+    | nil => exact absurd hu hne
+    | cons c cs => rw [hu] at this; simpa using this
+  exact C04_tree_bytes sp hsp hh hs fo t none text n h htext hck himn hts (hfl n hts) hplat huok hnd htop hcs ⟨hin, hF25⟩ hv hk
+    (fun m hm => by cases hm)
 
-/-- load (any version), write, parse the written text, load, write -/
-def tiUpgradeCycle (d : Ini) : Except Err (TreeInfo × Ini × TreeInfo × Ini) := do
-  let t ← TI.Legacy.deserialize intOracle d
-  let d1 ← TI.serialize t none
-  let d1' ← IniParse.parse Str.isPySpace (IniText.render d1)
-  let t2 ← TI.Legacy.deserialize intOracle d1'
-  let d2 ← TI.serialize t2 none
-  pure (t, d1, t2, d2)
+/-- **faithful and idempotent on a 0.3 witness** (`Proofs/C05WitnessTI.lean`: `wTI03`, evaluated in the kernel): `[product]`
+becomes the release, the child listed under `variants` is found in its `addon-` section, the `src` tree's paths become
+`source_packages` / `source_repository`; the written file is parsed, re-read and written again to the same document -/
+theorem C05_ti_upgrade_0_3_witness : tiUpgrade03Check = true := tiUpgrade03Check_true
 
-def vsum : Variant → List (Str × Str × List (Str × Str) × List Str)
-  | .mk _ _ uid _ type paths kids => [(uid, type, paths, kids.map Variant.uid)]
-
-/-- a 0.3 file: `[product]`, children under `variants`, a `src` tree whose source paths sit in `packages` / `repository` -/
-def wTI03 : Ini :=
-  [iniSec "header" [("version", "0.3")],
-   iniSec "product" [("name", "Fedora"), ("short", "F"), ("version", "21")],
-   iniSec "tree" [("arch", "src"), ("build_timestamp", "123"), ("platforms", "src"), ("variants", "Server")],
-   iniSec "variant-Server" [("id", "Server"), ("uid", "Server"), ("name", "Server"), ("type", "variant"), ("packages", "SRPMS"),
-                            ("repository", "."), ("variants", "Server-HA")],
-   iniSec "addon-Server-HA" [("id", "HA"), ("uid", "Server-HA"), ("name", "HA"), ("type", "addon")]]
-
-/-- **faithful and idempotent on a 0.3 witness**: `[product]` becomes the release, the child listed under `variants` is
-found in its `addon-` section, the `src` tree's paths become `source_packages` / `source_repository`; the written
-file is re-read and written again to the same document -/
-theorem C05_ti_upgrade_0_3_witness :
-    (match tiUpgradeCycle wTI03 with
-     | .ok (t, d1, _, d2) =>
-       t.release.name == "Fedora".toList && t.isLayered == false && t.tree.arch == "src".toList
-       && t.variants.flatMap vsum == [("Server".toList, "variant".toList,
-            [("source_packages".toList, "SRPMS".toList), ("source_repository".toList, ".".toList)], ["Server-HA".toList])]
-       && t.headerVersion == TI.currentVersion && d1 == d2
-     | .error _ => false) = true := by decide +kernel
-
-/-- a pre-productmd file (no header): RHEL 5 Server by its family name, absolute image paths -/
-def wTI00 : Ini :=
-  [iniSec "general" [("family", "Red Hat Enterprise Linux Server"), ("version", "5.8"), ("arch", "i386"), ("timestamp", "5"),
-                     ("packagedir", "Server"), ("totaldiscs", "2")],
-   iniSec "images-i386" [("kernel", "/mnt/os/images/vmlinuz")],
-   iniSec "stage2" [("mainimage", "/images/stage2.img")]]
-
-/-- **the pre-productmd heuristics on a witness, and idempotence** (for 0.0 nothing more general is claimed: the
-mapping is the code): family prefix → name / short `RHEL`, variant `Server` from the family, the RHEL 5 addon table for
+/-- **the pre-productmd heuristics on a witness, and idempotence** (`wTI00`; for 0.0 nothing more general is claimed about the
+mapping: it is the code): family prefix → name / short `RHEL`, variant `Server` from the family, the RHEL 5 addon table for
 i386, repository named after the variant, `/os/` and leading slashes cut from image paths, disc number defaulting to 1 -/
-theorem C05_ti_upgrade_0_0_witness :
-    (match tiUpgradeCycle wTI00 with
-     | .ok (t, d1, _, d2) =>
-       t.release.name == "Red Hat Enterprise Linux".toList && t.release.short == "RHEL".toList && t.release.version == "5.8".toList
-       && t.variants.flatMap vsum == [("Server".toList, "variant".toList,
-            [("packages".toList, "Server".toList), ("repository".toList, "Server".toList)],
-            ["Server-Cluster".toList, "Server-ClusterStorage".toList, "Server-VT".toList])]
-       && (t.variants.flatMap Variant.kids).map Variant.type == ["addon".toList, "addon".toList, "addon".toList]
-       && t.images == [("i386".toList, [("kernel".toList, "images/vmlinuz".toList)])]
-       && t.mainimage == some "images/stage2.img".toList && t.discnum == some 1 && t.totaldiscs == some 2 && d1 == d2
-     | .error _ => false) = true := by decide +kernel
+theorem C05_ti_upgrade_0_0_witness : tiUpgrade00Check = true := tiUpgrade00Check_true
 
 /-- **F12 witness**: the shipped `opensuse` fixture in miniature — a 1.0 file without `[tree]` and without variants —
 loads, and the writer then fails with IndexError (`variants[0]` of an empty list in `General.serialize`) -/
-theorem C05_ti_F12_witness :
-    let d : Ini := [iniSec "header" [("version", "1.0")], iniSec "release" [("name", "openSUSE Leap"), ("version", "15.1")],
-      iniSec "general" [("arch", "x86_64"), ("family", "openSUSE Leap"), ("version", "15.1"), ("platforms", "x86_64,xen")]]
-    (match TI.Legacy.deserialize intOracle d with
-     | .ok t => (match TI.serialize t none with | .error .indexError => true | _ => false) && t.variants.isEmpty
-     | .error _ => false) = true := by decide +kernel
+theorem C05_ti_F12_witness : tiF12Check = true := tiF12Check_true
 
 end TreeInfo
 
